@@ -33,6 +33,8 @@ class Ty:
 
 
 class Builtin:
+    _cls = "builtin"
+
     def __init__(self, kind, arg=None):
         self.kind, self.arg = kind, arg
         self.addr = id(self)
@@ -97,6 +99,7 @@ class Engine:
             "method:get": lambda ev, o, a: o, "method:release": lambda ev, o, a: o,
             "ctor:std::runtime_error": lambda ev, o, a: "exc",
             "debug_stack": lambda ev, o, a: None,
+            "vocabulary::get_builtins": lambda ev, o, a: o.words,
         }
         w = prog.globals.get("selector::W")
         W = (w.get("init") or {}).get("iv") if w else None
@@ -276,14 +279,34 @@ class Engine:
             return self.tree("FORMAT", [self.tree("STR", name=x) if isinstance(x, str) else self.build(x) for x in spec[1:]])
         raise Broken("unknown construct %s" % op)
 
-    def run(self, spec, initial, limit=200):
-        """results of the query `spec` on the stack `initial` (list of atom names, TOS last): list of tuples of names, or ('error', msg)"""
+    BUILTIN_WORDS = {"bw": ("push", "B!"), "bdrop": ("drop",)}
+
+    def root_bindings(self):
+        """the root scope as the library builds it: one binding per builtin word of the vocabulary"""
+        from cxxobj import MapObj
+        voc = Obj("vocabulary")
+        voc.words = MapObj([(StdStr(n.encode()), Builtin(*d)) for n, d in self.BUILTIN_WORDS.items()])
+        return self.ev.new_object("bindings", [voc])
+
+    def simplified(self, spec):
+        """the tree of `spec` after tree::simplify, interpreted from source"""
+        fs = [f for f in self.prog.funcs.values() if f["q"] == "tree::simplify" and f.get("body") is not None]
+        if len(fs) != 1:
+            raise Broken("anchor tree::simplify vanished")
+        t = self.build(spec)
+        self.ev.steps = 0
+        self.ev.call(fs[0], t, [])
+        return t
+
+    def run(self, spec, initial, limit=200, tree=None):
+        """results of the query `spec` (or of the given tree object) on the stack `initial` (list of atom names, TOS last): list of
+        tuples of names, or ('error', msg)"""
         ev = self.ev
         ev.steps = 0
         lay = ev.new_object("layout", [0])
         origin = ev.new_object("op_origin", [lay])
         try:
-            top = ev.call(self.be, None, [self.build(spec), lay, Sym.of("rdv"), origin, ev.new_object("bindings"), ev.new_object("uprefs")])
+            top = ev.call(self.be, None, [tree if tree is not None else self.build(spec), lay, Sym.of("rdv"), origin, self.root_bindings(), ev.new_object("uprefs")])
         except Thrown as x:
             return ("error", "compile: %s" % x)
         sc = self.new_scon()
@@ -341,8 +364,9 @@ class RefError(Exception):
 def reference(spec, stack, env=None):
     """list-like generator of the result stacks (tuples, TOS last) of `spec` on `stack`; raises RefError for queries that do not compile
     (a name bound twice in one scope, a read of an unbound name) and for run-time errors (stack underflow)"""
-    _static(spec, [set()])
-    for s, _ in _ref(spec, tuple(stack), ({},)):
+    _static(spec, [set(Engine.BUILTIN_WORDS), set()])
+    root = {n: BuiltinWord_(d) for n, d in Engine.BUILTIN_WORDS.items()}
+    for s, _ in _ref(spec, tuple(stack), (root, {})):
         yield tuple(str(x) for x in s)
 
 
@@ -374,6 +398,11 @@ def _static(spec, scopes):
         for x in reversed(spec[1:]):
             if not isinstance(x, str):
                 _static(x, scopes + [set()])
+
+
+class BuiltinWord_:
+    def __init__(self, spec):
+        self.spec = spec
 
 
 class Closure_:
@@ -509,6 +538,9 @@ def _ref(spec, s, scopes):
         for sc in reversed(scopes):
             if spec[1] in sc:
                 v = sc[spec[1]]
+                if isinstance(v, BuiltinWord_):
+                    yield from _ref(v.spec, s, scopes)
+                    return
                 if isinstance(v, Closure_):
                     # a name bound to a block applies it
                     for r, _ in _ref(v.body, s, v.scopes + ({},)):
